@@ -311,7 +311,6 @@ def iod_checks(ctx: Ctx, sink: Sink, I: Impl, arcs: list, rng: random.Random):
         tof = max(61, int(round(frac * period)))
         x1, x2 = x1_of_tof(float(tof))
         n += 1
-        band = "below-35pct" if tof / period < 0.3535 else "35-to-40pct"
         try:
             sol, tof_used, tof_jd = bench.run(solver, x1, x2, tof, rng)
         except Exception as ex:  # noqa: BLE001
@@ -319,7 +318,8 @@ def iod_checks(ctx: Ctx, sink: Sink, I: Impl, arcs: list, rng: random.Random):
             return
         rp = dict(rp, tof_s=tof_used, tof_over_period=tof_used / period, x1=x1.tolist(), x2=x2.tolist(), message=sol.message)
         if not sol.convergence or sol.state_vector is None:
-            sink.fail(f"iod-no-solution-{band}", f"LambertIOD returned no state for two noise-free radar observations "
+            why = "not-single-pass" if "single pass" in (sol.message or "") else "other"
+            sink.fail(f"iod-no-solution-{why}", f"LambertIOD returned no state for two noise-free radar observations "
                       f"{tof_used / period:.3f} of a period apart: {sol.message!r}", rp)
             return
         ep = float(np.linalg.norm(sol.state_vector[:3] - x2[:3]))
